@@ -516,8 +516,8 @@ func typeSwitched(prm *ssa.Parameter) bool {
 // ---------------------------------------------------------------- P-NO-LIBPARSE
 
 func init() {
-	register(&Rule{ID: "P-NO-LIBPARSE", Props: []string{"C04", "C16"}, Floor: 1,
-		Doc: "Who-may-call: the decoders of quoted identifiers and raw strings (and their helpers) never hand a piece of the literal to a general-purpose library parser (strconv.ParseInt/ParseUint/ParseFloat/Atoi/Unquote*, fmt.Sscan*): those accept spellings the grammar does not (a sign, an underscore, a base prefix, surrounding space), so an escape such as \\u+041 would be decoded instead of rejected. Hex digits are decoded by comparing characters (P-CHARCLASS).",
+	register(&Rule{ID: "P-NO-LIBPARSE", Props: []string{"C04", "C16", "C11", "C08"}, Floor: 1,
+		Doc: "Who-may-call: the decoders of quoted identifiers, raw strings and JSON literals (and their helpers; a JSON literal is decoded by encoding/json alone) never hand a piece of the literal to a general-purpose library parser (strconv.ParseInt/ParseUint/ParseFloat/Atoi/Unquote*, fmt.Sscan*): those accept spellings the grammar does not (a sign, an underscore, a base prefix, surrounding space), so an escape such as \\u+041 would be decoded instead of rejected. Hex digits are decoded by comparing characters (P-CHARCLASS).",
 		Run: rulePNoLibParse})
 }
 
@@ -540,6 +540,7 @@ func rulePNoLibParse(p *Program, r *Reporter) {
 	}
 	add(lh["quoted"])
 	add(lh["string"])
+	add(lh["json"]) // a backtick literal is JSON: only encoding/json decides what it means
 	if len(fns) == 0 {
 		r.Unknown(token.NoPos, "literal decoders", "the decoders of quoted identifiers and raw strings were not found")
 		return
